@@ -382,6 +382,19 @@ func runUnpack(data io.Reader, dst string, allow []string) (out unpackOutcome) {
 			o.class = "io"
 			return
 		}
+		if len(allow) > 0 {
+			// history: the same Packer first unpacks a small archive into another directory, in which a
+			// link makes it consult the allow-list relative to THAT root; nothing of it may stick to the
+			// Packer (seeds C04-d / C05-d / C16-a: an allow-list entry rewritten in place)
+			if warm, err := os.MkdirTemp("", "vh-warm"); err == nil {
+				var es []UEntry
+				for i, a := range allow {
+					es = append(es, UEntry{Name: fmt.Sprintf("w%d", i), Typ: tar.TypeSymlink, Link: a, Mode: 0777, Mtime: 1400000000})
+				}
+				p.Unpack(bytes.NewReader(buildTarGz(es)), warm)
+				os.RemoveAll(warm)
+			}
+		}
 		o.class = classify(p.Unpack(data, dst))
 	}()
 	select {
